@@ -225,7 +225,8 @@ def run(ck: core.Check):
         hist = lh.gen_history(rng, prog, rng.randrange(2, 9))
         hcases.append({"prog": prog, "hist": hist, "ref": ref, "salt": rng.randrange(0, 200)})
     inproc = []
-    for c in hcases:
+    # (quick: all histories are generated - the later phases draw from the same PRNG - the first 560 are run)
+    for c in hcases[: ck.pick(900 if changed else 560, len(hcases))]:
         try:
             r = lh.run_case(c["prog"], c["hist"], c["ref"])
         except Exception as e:  # noqa: BLE001 - observation machinery, not a verdict
@@ -308,6 +309,8 @@ def run(ck: core.Check):
         elif j < len(sub):
             # compare with the long-lived process after its history
             k_ = idx_of[id(sub[j])]
+            if k_ >= len(inproc):
+                continue
             mine = inproc[k_]["ref_after"]
             theirs = next(iter(shas.values()))
             if mine != theirs:
@@ -320,7 +323,7 @@ def run(ck: core.Check):
     lap("fresh_processes")
     ck.cov.update({
         "phase_seconds": phases,
-        "histories": len(hcases),
+        "histories": len(inproc),
         "fresh_process_cases": len(fresh_cases),
         "hash_seeds": len(hashseeds),
         "distribution": stats,
